@@ -263,7 +263,21 @@ def build(repo=None):
     # ================================================================== _check
     ck = mod.func("_MetaPyTree._check")
     functions.append({"qualname": "jaxtyping._pytree_type._MetaPyTree._check", "sha256_16": mod.sha(ck), "lines": [ck.lineno, ck.end_lineno]})
-    fors = [x for x in ast.walk(ck) if isinstance(x, ast.For)]
+    # _check together with the private helpers it hands its work to (methods of the metaclass, module-level functions of this file)
+    helpers, work = [], [ck]
+    mcls = mod.cls("_MetaPyTree")
+    by_name = {b.name: b for b in mcls.body if isinstance(b, ast.FunctionDef)}
+    by_name.update({b.name: b for b in mod.tree.body if isinstance(b, ast.FunctionDef)})
+    while work:
+        cur = work.pop()
+        for c in ast.walk(cur):
+            if isinstance(c, ast.Call):
+                nm = c.func.attr if isinstance(c.func, ast.Attribute) and isinstance(c.func.value, ast.Name) and c.func.value.id in ("cls", "self") else c.func.id if isinstance(c.func, ast.Name) else None
+                h = by_name.get(nm)
+                if h is not None and h is not ck and h not in helpers and h.name not in ("__instancecheck__", "__getitem__", "__call__"):
+                    helpers.append(h)
+                    work.append(h)
+    fors = [x for f_ in [ck] + helpers for x in ast.walk(f_) if isinstance(x, ast.For)]
     leaf_loops = [x for x in fors if "enumerate" in ast.unparse(x.iter)]
     piece_loops = [x for x in fors if x not in leaf_loops]
     if len(leaf_loops) != 1 or len(piece_loops) != 1:
